@@ -34,6 +34,9 @@ type Param struct {
 type Config struct {
 	P []int     `json:"p"`
 	F []float64 `json:"f,omitempty"`
+	// Alt selects the "plain constructor, then assign the exported fields" route where the
+	// registry knows one (reg/alt.go).
+	Alt bool `json:"alt,omitempty"`
 }
 
 func (c Config) String() string { return fmt.Sprintf("p=%v f=%v", c.P, c.F) }
@@ -134,6 +137,9 @@ func (ind Ind) GenConfig(t *rapid.T, maxSmall int) Config {
 	if ind.Fix != nil {
 		ind.Fix(&c)
 	}
+	if _, ok := alt[ind.Name]; ok && rapid.IntRange(0, 2).Draw(t, "field_route") == 0 {
+		c.Alt = true
+	}
 	return c
 }
 
@@ -193,5 +199,16 @@ func All() []Ind {
 	out = append(out, momentumInds()...)
 	out = append(out, volatilityInds()...)
 	out = append(out, volumeInds()...)
+	for i := range out {
+		if a, ok := alt[out[i].Name]; ok {
+			plain := out[i].Build
+			out[i].Build = func(c Config) (func([]C) []C, int) {
+				if c.Alt {
+					return a(c)
+				}
+				return plain(c)
+			}
+		}
+	}
 	return out
 }
